@@ -120,58 +120,84 @@ def run(chk):
     chk.assume("floating-point comparison of r with a start is exact comparison of the two floats")
 
 
-def enumerate_selection(chk, P, kmax, perm_max, stats):
+_WORKER = {}
+
+
+def _cases_for(args):
+    """evaluate all marker assignments / r positions / listings for one weak ordering of k starts"""
+    k, ranks, perm_max = args
+    if "P" not in _WORKER:
+        _WORKER["P"] = F.load_program()
+    P = _WORKER["P"]
     I = F.make_interp(P)
+    bad, order_bad = [], []
+    ncase = nontrivial = either = 0
+    m = max(ranks) + 1
+    starts = [2 * x for x in ranks]                 # even integers; odd ones lie strictly between
+    rpos = list(range(-1, 2 * m))                  # below, on, between, ..., above
+    for markers in itertools.product((">", ">="), repeat=k):
+        ranges = [("f%d" % i, markers[i], starts[i]) for i in range(k)]
+        if k <= perm_max:
+            listings = list(itertools.permutations(range(k)))
+        else:
+            listings = [tuple(range(k)), tuple(reversed(range(k)))]
+        results = {}
+        for listing in listings:
+            obj = build(I, P, ranges, listing)
+            for r in rpos:
+                sel = I.call(I.getattr(obj, "_range_search"), [Num(ep.const(r))], {})
+                if isinstance(sel, Const) and sel.v is None:
+                    lab = None
+                elif isinstance(sel, InstV):
+                    lab = sel.attrs["_potential_form"].path[1]
+                else:
+                    raise AnalysisError("_range_search returned %r" % (sel,))
+                ok_labels = oracle(ranges, r)
+                ncase += 1
+                if lab is not None:
+                    nontrivial += 1
+                if len(ok_labels) > 1:
+                    either += 1
+                if lab not in ok_labels:
+                    bad.append((ranges, listing, r, lab, sorted(ok_labels, key=str)))
+                desc = None if lab is None else (ranges[int(lab[1:])][1], ranges[int(lab[1:])][2])
+                prev = results.setdefault(r, desc)
+                if prev != desc:
+                    order_bad.append((ranges, listing, r, desc, prev))
+    return k, ncase, nontrivial, either, bad[:3], len(bad), order_bad[:3], len(order_bad)
+
+
+def enumerate_selection(chk, P, kmax, perm_max, stats):
     cls = P.cls(MOD, "Multi_Range_Potential_Form")
     site = cls.lookup("_range_search").site()
+    jobs = [(k, ranks, perm_max) for k in range(1, kmax + 1) for ranks in weak_orderings(k)]
+    _WORKER["P"] = P
+    if chk.tier == "thorough":
+        import multiprocessing
+        with multiprocessing.Pool(min(16, os.cpu_count() or 1)) as pool:
+            results = pool.map(_cases_for, jobs, chunksize=4)
+    else:
+        results = [_cases_for(j) for j in jobs]
     for k in range(1, kmax + 1):
-        bad = []
-        order_bad = []
-        ncase = 0
-        for ranks in weak_orderings(k):
-            m = max(ranks) + 1
-            starts = [2 * x for x in ranks]                 # even integers; odd ones lie strictly between
-            rpos = list(range(-1, 2 * m))                  # below, on, between, ..., above
-            for markers in itertools.product((">", ">="), repeat=k):
-                ranges = [("f%d" % i, markers[i], starts[i]) for i in range(k)]
-                if k <= perm_max:
-                    listings = list(itertools.permutations(range(k)))
-                else:
-                    listings = [tuple(range(k)), tuple(reversed(range(k)))]
-                results = {}
-                for listing in listings:
-                    obj = build(I, P, ranges, listing)
-                    for r in rpos:
-                        sel = I.call(I.getattr(obj, "_range_search"), [Num(ep.const(r))], {})
-                        if isinstance(sel, Const) and sel.v is None:
-                            lab = None
-                        elif isinstance(sel, InstV):
-                            lab = sel.attrs["_potential_form"].path[1]
-                        else:
-                            raise AnalysisError("_range_search returned %r" % (sel,))
-                        ok_labels = oracle(ranges, r)
-                        ncase += 1
-                        if lab is not None:
-                            stats["nontrivial"] += 1
-                        if len(ok_labels) > 1:
-                            stats["either"] += 1
-                        if lab not in ok_labels:
-                            bad.append((ranges, listing, r, lab, sorted(ok_labels, key=str)))
-                        # listing independence: the selected (marker, start) must agree across listings
-                        desc = None if lab is None else (ranges[int(lab[1:])][1], ranges[int(lab[1:])][2])
-                        prev = results.setdefault(r, desc)
-                        if prev != desc:
-                            order_bad.append((ranges, listing, r, desc, prev))
+        rs = [r for r in results if r[0] == k]
+        ncase = sum(r[1] for r in rs)
         stats["cases"] += ncase
-        chk.ob("C08.O1", "k=%d: all %d (ordering, markers, r, listing) cases select the stated range" % (k, ncase), not bad, site=site,
-               found=("%d mismatches, first: ranges=%s listed %s r=%s selected %s acceptable %s" % ((len(bad),) + bad[0])) if bad else None,
+        stats["nontrivial"] += sum(r[2] for r in rs)
+        stats["either"] += sum(r[3] for r in rs)
+        bad = [b for r in rs for b in r[4]]
+        nbad = sum(r[5] for r in rs)
+        order_bad = [b for r in rs for b in r[6]]
+        nob = sum(r[7] for r in rs)
+        chk.ob("C08.O1", "k=%d: all %d (ordering, markers, r, listing) cases select the stated range" % (k, ncase), not nbad, site=site,
+               found=("%d mismatches, first: ranges=%s listed %s r=%s selected %s acceptable %s" % ((nbad,) + bad[0])) if bad else None,
                expect="greatest start containing r", key="C08.O1|k=%d" % k)
-        if k >= 2 and k <= max(perm_max, 2):
-            chk.ob("C08.O2", "k=%d: every listing permutation selects a range with the same (marker, start)" % k, not order_bad,
+        if 2 <= k <= max(perm_max, 2):
+            chk.ob("C08.O2", "k=%d: every listing permutation selects a range with the same (marker, start)" % k, not nob,
                    site=cls.setters["range_defns"].site() if "range_defns" in cls.setters else site,
-                   found=("%d differences, first: ranges=%s listing %s r=%s -> %s vs %s" % ((len(order_bad),) + order_bad[0])) if order_bad else None,
+                   found=("%d differences, first: ranges=%s listing %s r=%s -> %s vs %s" % ((nob,) + order_bad[0])) if order_bad else None,
                    expect="listing order irrelevant", key="C08.O2|k=%d" % k)
-        chk.samples_extra.append({"k": k, "cases": ncase, "example": "starts by rank, markers all combinations, r in {-1..2m-1}, permutations"})
+        chk.samples_extra.append({"k": k, "weak_orderings": len(rs), "cases": ncase,
+                                  "example": "starts by rank (even integers), all marker assignments, r in {-1..2m-1}, listing permutations"})
 
 
 def value_and_derivs(chk, P):
